@@ -108,7 +108,10 @@ int main(void)
 			grants = 0;
 			memset(&q, 0x5a, sizeof q);          /* init must not depend on previous contents */
 			messageq_init(&q, base, len, msglen);
-			messageq_t q2 = MESSAGEQ_VAR_INIT(base, len, msglen);
+			/* the static initialiser is a macro: hand it expressions, not plain identifiers, as callers do
+			 * (sizeof(hdr) + PAYLOAD, n * sizeof(msg) ...) */
+			size_t len_a = len / 2, len_b = len - len_a, ml_a = msglen / 2, ml_b = msglen - ml_a;
+			messageq_t q2 = MESSAGEQ_VAR_INIT(base, len_a + len_b, ml_a + ml_b);
 #ifdef VERIF_BLACKBOX
 			int eq = masked_eq(&q, &q2);
 #else
